@@ -69,8 +69,20 @@ def _setup():
                 new.append(wrapped[f])
             s.expr_simp_cb[cls] = new
         s.cache.clear()
+    def wrapped_table(name):
+        """A class-level pass table with every rule wrapped (step budget, firing counts)."""
+        out = {}
+        for cls, lst in getattr(S.ExpressionSimplifier, name).items():
+            new = []
+            for f in lst:
+                if f not in wrapped:
+                    wrapped[f] = wrap(f)
+                new.append(wrapped[f])
+            out[cls] = new
+        return out
+
     _state.update(simps=simps, trace=trace, counter=counter, fired=fired, tracing=False, all_rules=all_rules,
-                  S=S, vcache={}, judged=set())
+                  S=S, vcache={}, judged=set(), wrapped_table=wrapped_table, tables={})
     return _state
 
 
@@ -305,6 +317,56 @@ def judge_fixpoint(e, cfg, case):
     return ("changed" if r is not e else "ok"), vs
 
 
+# staged configurations: pass tables enabled one after the other on ONE simplifier that is used in between
+# (what EmulatedSymbExec.enable_emulated_simplifications or a user enabling PASS_HIGH_TO_EXPLICIT later does)
+STAGED = [("PASS_COMMONS", "PASS_HIGH_TO_EXPLICIT"), ("PASS_HIGH_TO_EXPLICIT", "PASS_COMMONS"),
+          ("PASS_COMMONS", "PASS_COND"), ("PASS_COMMONS", "PASS_HEAVY")]
+
+
+def judge_staged(e, cfg, case):
+    """C02 on a simplifier whose pass tables are enabled in stages, the expression (and its first result) having been
+    simplified before the last table was enabled: the final output must be a fixed point of the final configuration
+    and equal to what a simplifier given all the tables at once returns (results cached before enable_passes must
+    not survive it)."""
+    st = _setup()
+    S = st["S"]
+    first, second = cfg[len("staged:"):].split(">")
+    cls = S.ExpressionSimplifier
+    if not hasattr(cls, first) or not hasattr(cls, second):
+        return "skip", []
+    vs = []
+    for name in (first, second):
+        if name not in st["tables"]:
+            st["tables"][name] = st["wrapped_table"](name)
+    t1, t2 = st["tables"][first], st["tables"][second]
+    st["counter"][0] = 0
+    try:
+        staged = cls()
+        staged.enable_passes(t1)
+        r0 = staged(e)
+        staged(r0)
+        staged.enable_passes(t2)
+        r = staged(e)
+        r2 = staged(r)
+        once = cls()
+        once.enable_passes(t1)
+        once.enable_passes(t2)
+        rc = once(e)
+    except (Budget, RecursionError):
+        return "nonterm", [violation("%s|step-budget|%s" % (cfg, skeleton(e)),
+                                     "%s on %s did not terminate within budget" % (cfg, e), case)]
+    except Exception:
+        return "crash", []
+    if r2 is not r:
+        vs.append(violation("%s|not-idempotent|%s" % (cfg, skeleton(r)),
+                            "simplifier with %s enabled, used, then %s enabled: S(%s) = %s but S of that = %s" % (first, second, e, r, r2), case))
+    if rc is not r:
+        vs.append(violation("%s|differs-from-tables-enabled-at-once|%s" % (cfg, skeleton(e)),
+                            "simplifier with %s enabled, used, then %s enabled: S(%s) = %s, a simplifier given both tables at once returns %s" % (
+                                first, second, e, r, rc), case))
+    return ("changed" if r is not e else "ok"), vs
+
+
 # ---------------------------------------------------------------- families / shards
 
 SMALL = (1, 2, 3, 4)
@@ -312,6 +374,10 @@ SMALL = (1, 2, 3, 4)
 
 def _sibc(w):
     return [1, (1 << w) - 1, 1 << (w - 1)]
+
+
+STAGED_FAMILIES = ("d1", "compose", "ext_cmp", "mem", "cond_nary")
+STAGED_FAMILIES_QUICK = ("compose", "mem")
 
 
 def family_iter(fam, params):
@@ -433,10 +499,15 @@ def shard_worker(args):
             for s in st["simps"].values():
                 s.cache.clear()
         changed = False
-        for cfg in CONFIGS:
+        cfgs = CONFIGS
+        if mode != "meaning" and fam in (STAGED_FAMILIES if deep else STAGED_FAMILIES_QUICK):
+            cfgs = CONFIGS + ["staged:%s>%s" % ab for ab in (STAGED if deep else STAGED[:2])]
+        for cfg in cfgs:
             case = {"fam": fam, "params": params, "index": i, "cfg": cfg, "expr": repr(e)}
             if mode == "meaning":
                 s, v = judge_meaning(e, cfg, case, deep=deep)
+            elif cfg.startswith("staged:"):
+                s, v = judge_staged(e, cfg, case)
             else:
                 s, v = judge_fixpoint(e, cfg, case)
                 if s == "changed":
@@ -526,6 +597,8 @@ def replay(case, mode):
         e = eval(case["expr"], ns)
     if mode == "meaning":
         return judge_meaning(e, case["cfg"], case)[1]
+    if case["cfg"].startswith("staged:"):
+        return judge_staged(e, case["cfg"], case)[1]
     return judge_fixpoint(e, case["cfg"], case)[1]
 
 
